@@ -73,6 +73,7 @@ static const char *tmp_dir = "/tmp";
 static uint64_t seed = 1;
 static int leak_every = 0;	/* 0 = never */
 static int call_timeout = 20;	/* seconds per case */
+static char startup_ops[32] = "?";
 static const char *cur_case = "";
 static int cur_op = -1;
 static pthread_mutex_t out_mu = PTHREAD_MUTEX_INITIALIZER;
@@ -1925,6 +1926,25 @@ static void run_op(json_t *op)
 			if (slots[slot]) lib_free(slots[slot]);
 			slots[slot] = tok;
 		} else if (tok) lib_free(tok);
+	} else if (!strcmp(name, "Forge")) {
+		/* concretise a token descriptor once and keep it for several verifies */
+		long slot = jint(op, "slot", 0);
+		json_t *info = json_pack("{s:i}", "v", 1);
+		char *tok = forge_token(json_object_get(op, "tok"), info);
+		if (slot < 0 || slot >= MAXSLOT) die("slot");
+		if (slots[slot]) lib_free(slots[slot]);
+		if (tok) {	/* slots are released with the library's allocator */
+			jwt_malloc_t m; jwt_free_t f; char *c;
+			jwt_get_alloc(&m, &f);
+			c = m ? m(strlen(tok) + 1) : malloc(strlen(tok) + 1);
+			strcpy(c, tok); free(tok); tok = c;
+		}
+		slots[slot] = tok;
+		json_object_set_new(ev, "info", info);
+	} else if (!strcmp(name, "OpsEnv")) {
+		const char *v = getenv("JWT_CRYPTO");
+		json_object_set_new(ev, "env", json_string(v && is_plain_ascii(v) ? v : "~"));
+		json_object_set_new(ev, "cur", json_string(startup_ops));
 	} else if (!strcmp(name, "Codec")) {
 		op_codec(op, ev);
 	} else if (!strcmp(name, "AlgStr")) {
@@ -1948,6 +1968,7 @@ static void run_case(json_t *c, long idx)
 	cur_case = id; cur_op = -1;
 	case_rng = seed * 0x9e3779b97f4a7c15ULL ^ fnv(id);
 	drv_now = 1700000000;
+	jwt_set_crypto_ops("openssl");
 	ev = json_pack("{s:s,s:s,s:I}", "e", "Case", "id", id, "n", (json_int_t)idx);
 	emit(ev); json_decref(ev);
 	alarm(call_timeout);
@@ -1990,6 +2011,7 @@ int main(int argc, char **argv)
 		else die("usage: jwtdrv --script F --out F [--keys D] [--seed N] [--skip N] [--limit N] [--leak-every N]");
 	}
 	if (!script) die("need --script");
+	snprintf(startup_ops, sizeof startup_ops, "%s", jwt_get_crypto_ops());
 	if (out) {
 		out_fd = open(out, O_WRONLY | O_CREAT | O_APPEND, 0644);
 		if (out_fd < 0) die("open %s: %s", out, strerror(errno));
